@@ -92,6 +92,109 @@ def build_sessions(gens, exact=True):
     return sessions
 
 
+BIG_PROPS = ("C01", "C03", "C04", "C05", "C06", "C10", "C13")
+BIG_QUICK = [(3, 3, 11), (1, 12, 12), (12, 1, 13), (5, 5, 14), (2, 2, 15)]
+BIG_THOROUGH = BIG_QUICK + [(8, 8, 21), (10, 5, 22), (20, 10, 23), (3, 200, 24), (40, 10, 25), (6, 6, 26), (4, 7, 27)]
+
+
+def permute_game(g, rng):
+    """A random presentation change of a spec-encoded game (pi fixes state 1)."""
+    n = g["n"]
+    rest = list(range(2, n + 1))
+    rng.shuffle(rest)
+    pi = [1] + rest                                   # pi[s-1] = new index of s
+    rho = []
+    for s in range(n):
+        order = list(range(1, len(g["tr"][s]) + 1))
+        rng.shuffle(order)
+        rho.append(order)
+    names = sorted({e["a"] for row in g["tr"] for e in row if e["a"]})
+    alpha = [[a, "r_" + a] for a in names] if rng.random() < 0.5 else []
+    amap = dict((a, b) for a, b in alpha)
+    inv = {pi[s]: s for s in range(n)}                # new index -> old state (0-based)
+    h = {"n": n, "owner": [g["owner"][inv[t]] for t in range(1, n + 1)],
+         "reward": [g["reward"][inv[t]] for t in range(1, n + 1)],
+         "tr": [[{"a": amap.get(g["tr"][inv[t]][j - 1]["a"], g["tr"][inv[t]][j - 1]["a"]),
+                  "w": g["tr"][inv[t]][j - 1]["w"], "t": pi[g["tr"][inv[t]][j - 1]["t"] - 1]}
+                 for j in rho[inv[t]]] for t in range(1, n + 1)],
+         "final": [pi[f - 1] for f in g["final"]]}
+    return h, {"kind": "perm", "pi": pi, "rho": rho, "alpha": alpha}
+
+
+def big_sessions(prop, tier, seed, repo):
+    """Sessions on games far beyond the exact domain (generated boards, committed inputs):
+    judged with the size-independent clauses only (exact = False)."""
+    import glob
+    import random
+    import subprocess
+    import sys
+    from vlib import games as G
+    rng = random.Random(seed * 7919 + int(prop[1:]))
+    code = (
+        "import sys, json, os, tempfile\n"
+        "sys.path.insert(0, sys.argv[1]); sys.dont_write_bytecode = True\n"
+        "import roberta_generator as rg, conditionalrewards as cr\n"
+        "os.chdir(tempfile.mkdtemp()); os.makedirs('inputs')\n"
+        "out = []\n"
+        "for L, W, sd, fd in json.loads(sys.argv[2]):\n"
+        "    m, r, lo = rg.gen_rnd_board(sd, L, W, 0.3, 6, fd)\n"
+        "    rg.write_robots('inputs/b.py', L, W, m, r, lo, 0.1, 0.1, 0.05)\n"
+        "    d = cr.read_dict_from_file('inputs/b.py')\n"
+        "    for k in d: out.append(['%dx%d/%s' % (L, W, k), d[k]])\n"
+        "print(json.dumps(out))\n")
+    shapes = BIG_QUICK if tier == "quick" else BIG_THOROUGH
+    spec = [(L, W, sd + seed, (sd % 2 == 0)) for (L, W, sd) in shapes]
+    p = subprocess.run(["/venv/bin/python", "-c", code, repo, json.dumps(spec)], stdout=subprocess.PIPE,
+                       stderr=subprocess.PIPE, timeout=900)
+    if p.returncode != 0:
+        raise common.MachineryError("board generation for the big family failed: " + p.stderr.decode()[-800:])
+    named = [(n, d) for n, d in json.loads(p.stdout.decode())]
+    files = sorted(glob.glob(os.path.join(repo, "inputs", "*.py")))
+    limit = 60000 if tier == "quick" else 3000000
+    for path in files:
+        if os.path.getsize(path) > limit:
+            continue
+        try:
+            with open(path) as f:
+                d = eval(f.read())
+            for k, g in d.items():
+                named.append((os.path.basename(path) + ":" + k, g))
+        except Exception:
+            continue
+    sessions = []
+    for name, desc in named:
+        try:
+            desc = {k: desc[k] for k in ("rewards", "players", "transition_list", "final_states")}
+            if any(not isinstance(r, int) or isinstance(r, bool) or r > 10 ** 9 for r in desc["rewards"]):
+                continue                        # rewards like 5/3 or 10**25 do not fit the integer encoding
+            g, exact = G.from_python(desc, 10 ** 6)
+            if not exact:
+                continue                        # probabilities that are not multiples of 1e-6
+        except Exception:
+            continue
+        s = {"fam": "big", "exact": False, "budget": 25.0, "name": name}
+        if prop == "C13":
+            h, rel = permute_game(g, rng)
+            s["descs"] = [g, h]
+            s["rel"] = rel
+            s["script"] = [{"op": "call", "d": d_, "prune": pr, "mode": "solve", "obj": "new",
+                            "unless_pruned_raised": not pr}
+                           for pr in (True, False) for d_ in (1, 2)]
+        elif prop == "C10":
+            s["descs"] = [g]
+            s["script"] = hist_script([{"obj": "A", "prune": True}, {"obj": "A", "prune": True},
+                                       {"obj": "new", "prune": True}])
+        else:
+            s["descs"] = [g]
+            s["script"] = [{"op": "snap", "d": 1},
+                           {"op": "call", "d": 1, "prune": True, "mode": "solve", "obj": "new"},
+                           {"op": "call", "d": 1, "prune": False, "mode": "solve", "obj": "new",
+                            "unless_prev_raised": True},
+                           {"op": "snap", "d": 1}]
+        sessions.append(s)
+    return sessions
+
+
 def classify(prop, clause, known_open):
     """-> ('violation' | 'known:<id>' | 'other' | 'machinery')"""
     name = clause
@@ -153,7 +256,7 @@ def run_mc(prop, tier, seed, res):
     for fam, kq, kt in plan:
         k = kq if tier == "quick" else kt
         r = tlc.run("MC_Solver", env={"MC_FAMILY": fam, "GEN_K": k, "GEN_FAMILY": "x", "GEN_OUT": "x"},
-                    workers=8 if tier == "quick" else 16, gc="parallel", heap="6g",
+                    workers=4 if tier == "quick" else 16, gc="parallel", heap="6g",
                     args=["-seed", str(seed)], timeout=7200)
         if r.timed_out:
             raise common.MachineryError("MC_Solver timed out")
@@ -171,13 +274,24 @@ def run(prop, tier, seed, repo):
     known_open = common.load_known()["open"]
     work = tempfile.mkdtemp(prefix="verif_%s_" % prop)
     try:
+        import concurrent.futures
+        pool_ = concurrent.futures.ThreadPoolExecutor(max_workers=8)
+        mc_res = common.Result(prop, tier, seed)          # MC_Solver runs alongside the trace flow
+        mc_future = pool_.submit(run_mc, prop, tier, seed, mc_res)
+        futs = [pool_.submit(sf.generate, fam, (kq if tier == "quick" else kt),
+                             seed * 1000 + int(prop[1:]) * 10 + i, work)
+                for i, (fam, kq, kt) in enumerate(BATTERY[prop])]
         gens = []
-        for i, (fam, kq, kt) in enumerate(BATTERY[prop]):
-            k = kq if tier == "quick" else kt
-            gens += sf.generate(fam, k, seed * 1000 + int(prop[1:]) * 10 + i, work)
+        for f in futs:
+            gens += f.result()
         import time
         t1 = time.time()
         sessions = build_sessions(gens)
+        if prop in BIG_PROPS:
+            for b in big_sessions(prop, tier, seed, repo):
+                b["tid"] = len(sessions) + 1
+                sessions.append(b)
+            res.notes["big_sessions"] = sum(1 for x in sessions if x["fam"] == "big")
         sf.record(sessions, repo, budget=10.0)
         t2 = time.time()
         verdicts, st = sf.validate(sessions, work, timeout=6 * 3600)
@@ -197,8 +311,14 @@ def run(prop, tier, seed, repo):
                        "session is non-trivial for %s when its verdict carries the note '%s'; distinct = "
                        "distinct descriptions" % ([b[0] for b in BATTERY[prop]], prop, NONTRIVIAL[prop]))
         cov["families"] = {b[0]: (b[1] if tier == "quick" else b[2]) for b in BATTERY[prop]}
-        run_mc(prop, tier, seed, res)
-        res.notes["time.mc_s"] = round(time.time() - t3, 1)
+        mc_future.result()
+        pool_.shutdown()
+        res.violations += mc_res.violations
+        res.kinds.update(mc_res.kinds)
+        res.notes.update(mc_res.notes)
+        cov["states"] += mc_res.coverage["states"]
+        cov["transitions"] += mc_res.coverage["transitions"]
+        res.notes["time.mc_wait_s"] = round(time.time() - t3, 1)
         res.assumptions += [
             "exact game values exist only on the exact domain (n <= 7, weights <= 9): DESIGN section 11",
             "convergence tolerance is read as eps*H(G) (DESIGN section 5)",
